@@ -606,7 +606,9 @@ def c18(ck, F, tier):
     guarded(ck, ra.table_io, F)
     guarded(ck, ra.content_not_display, F)
     guarded(ck, ra.localized_number_guard, F)
-
+    import rules_attr as ra18
+    ck.rule("QUOTE-STYLE", "every cell write of set_user_input uses a style normalised for the quote prefix", floor=5)
+    guarded(ck, ra18.quote_prefix_style, F)
 
 def c06(ck, F, tier):
     import rules_eval as re_
